@@ -79,18 +79,28 @@ fn with_budget<T>(extra: usize, f: impl FnOnce() -> T) -> T {
 }
 fn now_ms() -> u64 { static T0: std::sync::OnceLock<std::time::Instant> = std::sync::OnceLock::new(); T0.get_or_init(std::time::Instant::now).elapsed().as_millis() as u64 + 1 }
 const CALL_TIMEOUT_MS: u64 = 2500;
+// CPU time of this process in ms (utime + stime of /proc/self/stat, 100 ticks per second)
+fn proc_cpu_ms() -> u64 {
+    std::fs::read_to_string("/proc/self/stat").ok().and_then(|t| { let r = t.rfind(')')?; let f: Vec<&str> = t[r + 1..].split_whitespace().collect();
+        Some((f.get(11)?.parse::<u64>().ok()? + f.get(12)?.parse::<u64>().ok()?) * 10) }).unwrap_or(0)
+}
+// A call is reported as a hang when it has been running for more than CALL_TIMEOUT_MS of wall time AND this process has burnt at least
+// 2 s of CPU since the watchdog first saw that call (a library call that does not return spins; on a loaded machine a descheduled
+// process must not look like one), or after 120 s of wall time whatever the CPU time.
 fn start_watchdog() {
     let _ = now_ms();
-    std::thread::spawn(|| loop {
+    std::thread::spawn(|| { let (mut seen, mut cpu0) = (0u64, 0u64); loop {
         std::thread::sleep(std::time::Duration::from_millis(50));
         let s = CALL_START.load(Ordering::SeqCst);
-        if s != 0 && now_ms().saturating_sub(s) > CALL_TIMEOUT_MS {
+        if s != seen { seen = s; cpu0 = proc_cpu_ms(); }
+        let wall = now_ms().saturating_sub(s);
+        if s != 0 && wall > CALL_TIMEOUT_MS && (proc_cpu_ms().saturating_sub(cpu0) >= 2000 || wall > 120_000) {
             LIMIT.store(usize::MAX, Ordering::SeqCst); TRIPPED.store(true, Ordering::SeqCst);
             let c = CTX.try_lock().map(|g| g.clone()).unwrap_or_default();
             let m = MODE.try_lock().map(|g| g.clone()).unwrap_or_default();
-            witness(format!("[{}] HANG: a call into the crate under test has not returned after {} ms; last step: {}", m, CALL_TIMEOUT_MS, c));
+            witness(format!("[{}] HANG: a call into the crate under test has not returned after {} ms of wall time and 2 s of CPU time; last step: {}", m, wall, c));
         }
-    });
+    } });
 }
 // every call into the crate under test goes through here: panics are caught, the watchdog sees the call
 fn guard<T>(what: &str, f: impl FnOnce() -> T) -> Result<T, String> {
@@ -2171,7 +2181,7 @@ fn main() {
     if let Ok(mut g) = MODE.lock() { *g = mode.clone(); }
     LIMIT.store(1 << 30, Ordering::SeqCst);     // no mode needs anywhere near 1 GiB of live heap on the unchanged tree
     start_watchdog();
-    { let mode = mode.clone(); std::thread::spawn(move || { std::thread::sleep(std::time::Duration::from_secs(150)); witness(format!("[{}] no result after 150 s: a call into the crate under test does not return (or is far slower than on the unchanged tree, where the whole mode takes about a second); last step: {}", mode, get_ctx())); }); }
+    { let mode = mode.clone(); std::thread::spawn(move || { std::thread::sleep(std::time::Duration::from_secs(280)); witness(format!("[{}] no result after 280 s: a call into the crate under test does not return (or is far slower than on the unchanged tree, where the whole mode takes about a second); last step: {}", mode, get_ctx())); }); }
     let r = catch_unwind(|| match mode.as_str() {
         "c09" => mode_c09(seed),
         "c10" => mode_c10(seed),
